@@ -98,6 +98,26 @@ theorem C09_error_position_in_bounds (src : Str) (t : Tok) (ht : t ∈ lexAll sr
   have h1 := (C09_lexer_total src).1 t ht
   refine ⟨t.pos, by omega, (C09_lexer_line_exact src t ht).1, findColumn_le src t.pos, findColumn_sameLine src t.pos⟩
 
+/-- the witness form `InsideAt` implies the line-text form: the line number is one of the text's lines and the
+    column does not exceed the length of that line -/
+theorem C09_insideAt_sound (src : Str) (line col : Nat) (h : InsideAt src line col) :
+    posInside src (line, col) = true := by
+  obtain ⟨k, hk, hl, hc, h0⟩ := h
+  have hcnt : countNl (src.take k) ≤ countNl src := (List.take_sublist _ _).count_le _
+  have := insideAt_lineText src k col hk hc h0
+  subst hl
+  have h1 : 1 ≤ 1 + countNl (src.take k) := by omega
+  have h2 : 1 + countNl (src.take k) ≤ numLines src := by unfold numLines; omega
+  simp [posInside, h1, h2, this]
+
+/-- error_position_in_bounds in the form of the property text: for every token the lexer returns,
+    1 ≤ line ≤ lines(src) and column ≤ len(that line) -/
+theorem C09_error_position_in_text (src : Str) (t : Tok) (ht : t ∈ lexAll src) :
+    1 ≤ t.line ∧ t.line ≤ numLines src ∧ findColumn src t.pos ≤ (lineText src t.line).length := by
+  have := C09_insideAt_sound src _ _ (C09_error_position_in_bounds src t ht)
+  simp only [posInside, tokenErrorPos, Bool.and_eq_true] at this
+  exact ⟨of_decide_eq_true this.1.1, of_decide_eq_true this.1.2, of_decide_eq_true this.2⟩
+
 /-- for errors raised in semantic actions the line is the lexer's (look-ahead token `la`) and the column comes from the
     first token of the production: inside the text IF both are on the same line … -/
 theorem C09_production_position_partial (src : Str) (firstpos : Nat) (la : Tok) (hf : firstpos ≤ src.length)
@@ -322,20 +342,6 @@ theorem C09_qualifierLookup_fails_at :
 
 /-! ## reuse of the compiler object -/
 
-theorem stepCall_embedded (s : PState) (c : Call) (h : s.embedded = none) : (stepCall s c).embedded = none := by
-  cases c with
-  | str m n f e ok =>
-    simp only [stepCall, compileString]
-    split
-    · simpa [applyEffect, compilePrologue] using h
-    · split <;> simpa [applyEffect, compilePrologue] using h
-  | emb m n e ok => simp [stepCall, compileEmbedded]
-
-theorem runCalls_embedded (cs : List Call) : ∀ (s : PState), s.embedded = none → (runCalls s cs).embedded = none := by
-  induction cs with
-  | nil => intro s h; simpa [runCalls] using h
-  | cons c cs ih => intro s h; simp only [runCalls, List.foldl_cons]; exact ih _ (stepCall_embedded s c h)
-
 /-- compiler_reusable: after ANY history of compile_string / compile_embedded_value calls — failed or not, with any
     effects on the parser state, including nested includes that failed — a new compile_string starts from the same
     file / mof / target namespace / embedded-objects state as on a fresh MOFCompiler.  (The caches qualcache,
@@ -344,14 +350,6 @@ theorem C09_compiler_reusable (history : List Call) (mof ns : Nat) (filename : O
     (compilePrologue (runCalls {} history) mof ns filename).view = (compilePrologue {} mof ns filename).view := by
   have := runCalls_embedded history {} rfl
   simp [PState.view, compilePrologue, this]
-
-theorem addKey_mem (ks : List Nat) (k x : Nat) (h : x ∈ ks) : x ∈ addKey ks k := by
-  unfold addKey; split <;> simp [h]
-
-theorem foldl_addKey_mem (ns : List Nat) : ∀ (ks : List Nat) (x : Nat), x ∈ ks → x ∈ ns.foldl addKey ks := by
-  induction ns with
-  | nil => intro ks x h; simpa using h
-  | cons n ns ih => intro ks x h; simp only [List.foldl_cons]; exact ih _ x (addKey_mem ks n x h)
 
 /-- a compile never removes a namespace from the qualifier cache (a failed compile leaves what it had registered) -/
 theorem C09_compiler_caches_grow (s : PState) (c : Call) (x : Nat) (h : x ∈ s.qualcacheNs) :
@@ -368,7 +366,7 @@ theorem C09_compiler_caches_grow (s : PState) (c : Call) (x : Nat) (h : x ∈ s.
     · split <;> exact key m n f e
   | emb m n e ok =>
     simp only [stepCall, compileEmbedded]
-    split <;> exact key m n none e
+    exact key m n none e
 
 /-! ## non-vacuity -/
 
@@ -387,5 +385,7 @@ example : mpCreateClass { createClass := [some 4, none], hasServer := false, cre
                           depsOutcome := .ok (), modifyClass := none } = .ok () := by decide
 example : (runCalls ({} : PState) [Call.emb 1 2 ({} : Effect) false,
     Call.str 3 4 (some 5) ({ nestedFile := some (6, 7) } : Effect) false]).file = some 6 := by decide
+example : (runCalls ({} : PState) [Call.str 3 4 (some 5) ({} : Effect) true, Call.emb 1 2 ({} : Effect) false]).view =
+    (none, none, some 2, none) := by decide
 
 end C09
